@@ -8,4 +8,4 @@ for k in 1 2; do
   mkdir -p seeded/$P-$n
   cp $W/change$k.diff seeded/$P-$n/patch.diff; cp $W/demo$k.py seeded/$P-$n/demo.py; cp $W/notes.md seeded/$P-$n/notes.md 2>/dev/null
 done
-nohup flock /tmp/seed-eval.lock tools/seedbatch.sh "$P-$2 seeded/$P-$2/patch.diff seeded/$P-$2/demo.py $checks" "$P-$3 seeded/$P-$3/patch.diff seeded/$P-$3/demo.py $checks" > /tmp/seedin-$P.log 2>&1 &
+nohup flock /tmp/seed-eval${LANE:-}.lock tools/seedbatch.sh "$P-$2 seeded/$P-$2/patch.diff seeded/$P-$2/demo.py $checks" "$P-$3 seeded/$P-$3/patch.diff seeded/$P-$3/demo.py $checks" > /tmp/seedin-$P.log 2>&1 &
